@@ -27,7 +27,10 @@ NCPU = int(os.environ.get("VF_JOBS", "0")) or min(16, os.cpu_count() or 1)
 import logging  # noqa: E402
 
 logging.getLogger("sharepoint2text").addHandler(logging.NullHandler())
-logging.getLogger("pypdf").addHandler(logging.NullHandler())  # keep the library's warnings off stderr (lastResort handler)
+logging.getLogger("pypdf").addHandler(logging.NullHandler())
+import warnings  # noqa: E402
+
+warnings.filterwarnings("ignore", module="openpyxl")  # keep the library's warnings off stderr (lastResort handler)
 
 
 class HarnessError(Exception):
